@@ -3,7 +3,9 @@ package main
 import (
 	"context"
 	"fmt"
+	"sort"
 	"strings"
+	"time"
 
 	"github.com/arr-ai/arrai/pkg/arraictx"
 	"github.com/arr-ai/arrai/pkg/fu"
@@ -80,5 +82,74 @@ func init() {
 		}
 		sb.WriteString("\n].\n")
 		return map[string]string{"Escapes.v": sb.String()}, nil
+	})
+}
+
+// dumpOrdered is dump with the members of every set listed in the order the Format
+// method of its representation writes them (Dict.OrderedEntries, OrderedValues of
+// generic and union sets, the name-ordered row enumeration of relations).  Sequences
+// are listed as enumerated; the printer model sorts them by index itself.
+func dumpOrdered(v rel.Value, depth int) any {
+	if depth > 40 {
+		return map[string]any{"x": "deep"}
+	}
+	members := func(e rel.ValueEnumerator) any {
+		ms := []any{}
+		for e.MoveNext() {
+			ms = append(ms, dumpOrdered(e.Current(), depth+1))
+		}
+		return map[string]any{"s": ms}
+	}
+	switch x := v.(type) {
+	case rel.Number:
+		return map[string]any{"n": fmtNum(x.Float64())}
+	case rel.Tuple:
+		attrs := [][2]any{}
+		for e := x.Enumerator(); e.MoveNext(); {
+			name, val := e.Current()
+			attrs = append(attrs, [2]any{name, dumpOrdered(val, depth+1)})
+		}
+		sort.Slice(attrs, func(i, j int) bool { return attrs[i][0].(string) < attrs[j][0].(string) })
+		return map[string]any{"t": attrs}
+	case rel.Closure, rel.ExprClosure, *rel.NativeFunction:
+		return map[string]any{"f": 1}
+	case rel.Dict:
+		ms := []any{}
+		for _, e := range x.OrderedEntries() {
+			ms = append(ms, dumpOrdered(e, depth+1))
+		}
+		return map[string]any{"s": ms}
+	case rel.Relation:
+		return members(x.ArrayEnumerator())
+	case rel.OrderableSet:
+		return members(x.OrderedValues())
+	case rel.Set:
+		return members(x.Enumerator())
+	}
+	return map[string]any{"x": fmt.Sprintf("%T", v)}
+}
+
+func init() {
+	// c12: {"src": "..."} -> value, the value as the printer enumerates it, printed text, Go type
+	register("c12", func(in map[string]any) map[string]any {
+		src, _ := in["src"].(string)
+		budget := 10 * time.Second
+		if b, ok := in["budget_ms"].(float64); ok {
+			budget = time.Duration(b) * time.Millisecond
+		}
+		r, to := safeEval(src, budget)
+		out := obs(r, to, true)
+		if out["st"] == "ok" {
+			func() {
+				defer func() {
+					if p := recover(); p != nil {
+						out["ord_panic"] = fmt.Sprint(p)
+					}
+				}()
+				out["ord"] = dumpOrdered(r.val, 0)
+				out["type"] = fmt.Sprintf("%T", r.val)
+			}()
+		}
+		return out
 	})
 }
